@@ -187,6 +187,36 @@ def strip_comments(txt):
     return "".join(out)
 
 
+def coqchk_props(pid, allow_axioms):
+    """Independent re-check of Props/<pid>.vo and everything it depends on (thorough runs).
+    Returns (failures, summary)."""
+    with Lock("coq"):
+        rc, out = sh(["coqchk", "-o", "-silent", "-Q", "theories", "JsonSyntax", f"JsonSyntax.Props.{pid}"],
+                     cwd=COQ, timeout=3000)
+    fails = []
+    if rc != 0:
+        return [f"coqchk failed on Props/{pid}.vo:\n" + out[-2000:]], "failed"
+    sect = {}
+    cur = None
+    for ln in out.split("\n"):
+        m = re.match(r"^\* ([^:]+):\s*(.*)$", ln)
+        if m:
+            cur = m.group(1).strip()
+            sect[cur] = [m.group(2).strip()] if m.group(2).strip() else []
+        elif cur and ln.strip():
+            sect[cur].append(ln.strip())
+    axioms = [a for a in sect.get("Axioms", []) if a != "<none>"]
+    extra = [a for a in axioms if not any(a.endswith(x) or x in a for x in allow_axioms)]
+    if extra:
+        fails.append(f"coqchk: Props/{pid}.vo relies on axioms outside the allowlist: {extra}")
+    for k in ("Constants/Inductives relying on type-in-type", "Constants/Inductives relying on unsafe (co)fixpoints",
+              "Inductives whose positivity is assumed"):
+        v = [x for x in sect.get(k, []) if x != "<none>"]
+        if v:
+            fails.append(f"coqchk: {k}: {v}")
+    return fails, f"coqchk -o ok; axioms: {axioms or 'none'}"
+
+
 def check_props_file(pid, allow_axioms):
     """Compiles Props/<pid>.v (after its dependency closure) and reads Print Assumptions.
     Returns dict(obligations, discharged, theorems, failures, output)."""
@@ -402,8 +432,38 @@ def correspondence(fam, tier, seed, nshards, nontrivial, extra=None, classify=No
     if res.crashes:
         # the implementation aborted (abort, stack overflow, non-unwinding panic): find the case
         shard, msg = res.crashes[0]
-        res.crash_case = locate_crash(fam, tier, seed, shard, nshards, outdir, extra or [])
+        # the panic hook of the harness records the case under evaluation at every panic: when
+        # the process aborted (panic while unwinding) its last line is the case that did it
+        cand = None
+        try:
+            lines = open(f"{outdir}/panic.{shard}.txt", encoding="utf-8", errors="replace").read().split("\n")
+            lines = [l for l in lines if l]
+            if lines and not impl_survives(fam, [lines[-1]]):
+                cand = lines[-1]
+        except OSError:
+            pass
+        res.crash_case = cand or locate_crash(fam, tier, seed, shard, nshards, outdir, extra or [])
         res.crash_msg = msg
+        if not res.crash_case:
+            # the generator itself died (it explores implementation states): the cases that were
+            # under evaluation at each recorded panic are evaluated one by one against the model
+            cands = []
+            for i in range(nshards):
+                try:
+                    for l in open(f"{outdir}/panic.{i}.txt", encoding="utf-8", errors="replace").read().split("\n"):
+                        if l and l not in cands:
+                            cands.append(l)
+                except OSError:
+                    pass
+            cands.sort(key=len)
+            for c in cands[:60]:
+                if not impl_survives(fam, [c]):
+                    res.crash_case = c
+                    break
+                im = eval_impl(fam, [c])[0]
+                mo, sp = eval_model(fam, [c])[0]
+                if im != mo:
+                    res.mismatches.append((c, im, mo, sp))
         return res
     if res.errors:
         return res
@@ -489,6 +549,10 @@ def run_property(cfg, tier, seed):
     bad = audit_sources()
     proof = check_props_file(pid, cfg.get("allow_axioms", []))
     proof_failures = [f"forbidden construct: {b}" for b in bad] + proof["failures"]
+    coqchk_summary = "not run (quick tier)"
+    if tier == "thorough" and not proof["failures"]:
+        cf, coqchk_summary = coqchk_props(pid, cfg.get("allow_axioms", []))
+        proof_failures += cf
 
     # 2. builds
     ok_m, out_m = coq_make(model_targets())
@@ -515,7 +579,7 @@ def run_property(cfg, tier, seed):
                                     "case": res.crash_case, "impl": "ABORT: " + res.crash_msg[-300:], "model": mo, "spec": sp,
                                     "seed": seed, "tier": tier,
                                     "replay": f"echo '{res.crash_case}' | {HARNESS_BIN} {fam} eval"}))
-            else:
+            elif not res.mismatches:
                 violations.append(("run", "the harness process died: " + res.crash_msg[-300:],
                                    {"kind": "run-error", "error": res.crash_msg}))
         differs = cfg.get("differs", default_differs)
@@ -585,6 +649,7 @@ def run_property(cfg, tier, seed):
         "case_distribution": res.stats if res else {},
         "exhaustive": bool(cfg.get("exhaustive", False)),
         "known_findings_seen": known_lines,
+        "coqchk": coqchk_summary,
     }
     write_evidence(pid, tier, seed, cov, cfg.get("assumptions", []), time.time() - t0, len(violations), cfg.get("level", "proof"))
 
